@@ -3,6 +3,7 @@ package main
 import (
 	"go/constant"
 	"go/types"
+	"strings"
 
 	"golang.org/x/tools/go/ssa"
 )
@@ -168,4 +169,98 @@ func (c *Ctx) nonNilGlobalContent(s *Sym) bool {
 	}
 	c.nonNilGlobals[g] = n == 1 && good
 	return c.nonNilGlobals[g]
+}
+
+// pureModuleFn: a module function that (transitively) writes no non-local memory, starts/defer nothing,
+// performs no channel operation and calls nothing that could: a getter / formatter / logging-argument
+// helper. Such calls need not be entered by the path enumerator and do not disturb the abstract store.
+func (c *Ctx) pureModuleFn(f *ssa.Function) bool {
+	if c.pureMemo == nil {
+		c.pureMemo = map[*ssa.Function]int{}
+	}
+	switch c.pureMemo[f] {
+	case 1:
+		return true
+	case 2:
+		return false
+	case 3:
+		return true // recursion: optimistic, the cycle is decided by its other members
+	}
+	if len(f.Blocks) == 0 {
+		return false
+	}
+	c.pureMemo[f] = 3
+	pure := true
+	for _, b := range f.Blocks {
+		for _, in := range b.Instrs {
+			switch in := in.(type) {
+			case *ssa.Store:
+				if rootAlloc(in.Addr) == nil {
+					pure = false
+				}
+			case *ssa.MapUpdate, *ssa.Send, *ssa.Go, *ssa.Defer, *ssa.Select, *ssa.Panic:
+				pure = false
+			case *ssa.UnOp:
+				if in.Op.String() == "<-" {
+					pure = false
+				}
+			case *ssa.Call:
+				cc := in.Common()
+				if bi, ok := cc.Value.(*ssa.Builtin); ok {
+					switch bi.Name() {
+					case "close", "delete", "recover", "panic", "copy":
+						pure = false
+					}
+					continue
+				}
+				if cc.IsInvoke() {
+					if cc.Method.Pkg() != nil && c.inModule(cc.Method.Pkg()) {
+						pure = false
+					}
+					// I/O through net / io interfaces is an effect the rules want to see
+					if cc.Method.Pkg() != nil && (cc.Method.Pkg().Path() == "net" || cc.Method.Pkg().Path() == "io") {
+						switch cc.Method.Name() {
+						case "RemoteAddr", "LocalAddr", "String", "Network":
+						default:
+							pure = false
+						}
+					}
+					continue
+				}
+				callee := cc.StaticCallee()
+				if callee == nil {
+					pure = false
+					continue
+				}
+				if c.fnInModule(callee) {
+					if !c.pureModuleFn(callee) {
+						pure = false
+					}
+					continue
+				}
+				// external static callee: impure if it is a known synchronisation / mutation primitive
+				n := callee.String()
+				if strings.HasPrefix(n, "(*sync.") || strings.HasPrefix(n, "(*go.uber.org/atomic.") && !strings.HasSuffix(n, ".Load") || strings.HasPrefix(n, "(*sync/atomic.") && !strings.HasSuffix(n, ".Load") || strings.HasPrefix(n, "(*container/") || strings.HasPrefix(n, "container/heap.") {
+					pure = false
+				}
+				for _, a := range cc.Args {
+					if _, isSig := a.Type().Underlying().(*types.Signature); isSig {
+						pure = false
+					}
+				}
+			}
+			if !pure {
+				break
+			}
+		}
+		if !pure {
+			break
+		}
+	}
+	if pure {
+		c.pureMemo[f] = 1
+	} else {
+		c.pureMemo[f] = 2
+	}
+	return pure
 }
